@@ -15,7 +15,8 @@ from ..paths import enumerate_paths
 from ..consteval import fold_const, fold_expr, Regex, EnumMember
 from .c03_flow import OFlow, SanCall, strip_proj, via_of
 from .c03_inline import (inline_helpers, inline_test_locals, comprehension_as_loop, unroll_const_loops, specialise, ifexp_assign_to_if,
-                         search_loop_to_any, index_loop_to_direct, desugar_list_comp_assigns, desugar_map, partial_bindings, expand_partials)
+                         search_loop_to_any, index_loop_to_direct, desugar_list_comp_assigns, desugar_map, partial_bindings, expand_partials,
+                         expand_local_callables, rotate_primed_loops)
 
 NINJA = 'mesonbuild/backend/ninjabackend.py'
 BACKENDS = 'mesonbuild/backend/backends.py'
@@ -44,7 +45,15 @@ EXPLANATION = (
     'R4e: a return that runs the argv through `meson --internal exe` with options puts the `--` separator right before it. R9: the suffix guard of '
     'both_libraries covers every per-library-kind `<lang>_*_args` key that is read. R10: CLikeCompilerArgs.to_native deletes collected positions from the back. '
     'R6: a newline in an argument forces the pickled wrapper, which receives the unmodified '
-    'serialisation (an information note reports whether environment values placed on the command line by the `env` shortcut are newline-tested; not an obligation). NOT decided: what shlex.quote/cmd_quote produce for a given string,  the behaviour of ninja, /bin/sh, shlex.quote, cmd.exe and compiler response-file parsers.')
+    'serialisation (an information note reports whether environment values placed on the command line by the `env` shortcut are newline-tested; not an obligation). '
+    'R3d: in the quote function bound to the shell quoter on Windows hosts (also the MSVC response-file quoter) every returning path that wraps the text in double quotes '
+    'applies, before the wrapping, the `<backslashes>"` escaping and the terminal-backslash doubling (patterns classified by regex structure), unless a path condition '
+    'excludes the trigger (`"` not in text / text does not end with a backslash / empty text); the arithmetic of the replacement callbacks is not decided. '
+    'NOT decided: what shlex.quote/cmd_quote produce for a given string,  the behaviour of ninja, /bin/sh, shlex.quote, cmd.exe and compiler response-file parsers. '
+    'NOT decided: whether each `$VARIABLE` of an rspable NinjaRule sits in the part (command = stays on the command line, args = goes into the response file) whose quoting '
+    'function NinjaBuildElement.write applies to its values: write() picks one quote function per statement, and telling a harmful placement from a harmless one needs to know '
+    'which variables carry user argument strings for that rule (on the pinned tree `$LINK_ARGS` of the static-link rule already sits in the command part). '
+    'NOT decided: which argument words CompilerArgs may drop or reorder when de-duplicating (Dedup classes in arglist.py; that is property C13), apart from R10.')
 ASSUMPTIONS = ['ninja treats exactly `$`, space, newline (and `:` on build lines) as special and `$x` as escape of x',
                'shlex.quote / CommandLineToArgvW quoting are inverse to the respective shell word splitting',
                'subprocess.Popen / asyncio.create_subprocess_exec pass a list argv unchanged when no shell is requested']
@@ -79,6 +88,7 @@ def _nfunc(mod: Module, qn: str) -> ast.AST:
         except Undecided:
             pass
     f0 = expand_partials(desugar_map(mod.func(qn)), partial_bindings(mod), True)        # map(f, xs) -> generator; partial aliases -> the call they stand for
+    f0 = rotate_primed_loops(expand_local_callables(f0, mod.imports(), True), True)    # local partial/lambda/function aliases; loop-and-a-half / walrus loops -> primed loops
     f = unroll_const_loops(desugar_list_comp_assigns(inline_helpers(mod, f0, cls, no_inline), only_tables=True, inplace=True), True)      # inline_helpers works on a copy; the rest edits that copy
     _NF_CACHE[key] = inline_test_locals(search_loop_to_any(index_loop_to_direct(ifexp_assign_to_if(f, True), True), True), True)
     return _NF_CACHE[key]
@@ -1268,6 +1278,221 @@ def r3c(ctx: RuleCtx) -> None:
                                 f'the POSIX quote_arg returns {vals}, not shlex.quote of its argument', f)
     ctx.floor('POSIX definition of quote_arg', found, 1)
 
+
+
+# ---------------------------------------------------------------------------
+# R3d  CommandLineToArgvW-style quote function: escaping runs on every path that needs it
+
+def _flat_regex(items: T.Any) -> T.List[T.Any]:
+    out: T.List[T.Any] = []
+    for it in items:
+        if it[0] is rx.sre_c.SUBPATTERN:
+            out += _flat_regex(it[1][3])
+        else:
+            out.append(it)
+    return out
+
+
+def _escape_kind(pattern: str) -> T.Optional[str]:
+    """'quote' for <run of backslashes>" ; 'terminal' for <run of backslashes><end of string>; None for anything else (regex structure)."""
+    c = rx.sre_c
+    items = _flat_regex(list(rx.parse(pattern)))
+    if len(items) != 2 or items[0][0] is not c.MAX_REPEAT:
+        return None
+    lo, hi, sub = items[0][1]
+    if hi is not c.MAXREPEAT or _flat_regex(list(sub)) != [(c.LITERAL, ord('\\'))]:
+        return None
+    if items[1] == (c.LITERAL, ord('"')):
+        return 'quote'
+    if items[1][0] is c.AT and items[1][1] in (c.AT_END, c.AT_END_STRING):
+        return 'terminal'
+    return None
+
+
+def _dq_wrapped(e: ast.AST) -> bool:
+    """An expression that puts a double quote at both ends: f'"{x}"', '"' + x + '"', '"{}"'.format(x), '"%s"' % x."""
+    def const(x: ast.AST) -> T.Optional[str]:
+        return x.value if isinstance(x, ast.Constant) and isinstance(x.value, str) else None
+    if isinstance(e, ast.JoinedStr) and len(e.values) >= 3:
+        a, b = const(e.values[0]), const(e.values[-1])
+        return bool(a and b and a.startswith('"') and b.endswith('"'))
+    if isinstance(e, ast.BinOp) and isinstance(e.op, ast.Add):
+        parts: T.List[ast.AST] = []
+        def flat(x: ast.AST) -> None:
+            if isinstance(x, ast.BinOp) and isinstance(x.op, ast.Add):
+                flat(x.left)
+                flat(x.right)
+            else:
+                parts.append(x)
+        flat(e)
+        a, b = const(parts[0]), const(parts[-1])
+        return len(parts) >= 3 and bool(a and b and a.startswith('"') and b.endswith('"'))
+    tmpl = None
+    if isinstance(e, ast.Call) and isinstance(e.func, ast.Attribute) and e.func.attr == 'format':
+        tmpl = const(e.func.value)
+    elif isinstance(e, ast.BinOp) and isinstance(e.op, ast.Mod):
+        tmpl = const(e.left)
+    return bool(tmpl and len(tmpl) >= 4 and tmpl.startswith('"') and tmpl.endswith('"'))
+
+
+def _postorder(n: ast.AST) -> T.Iterator[ast.AST]:
+    for ch in ast.iter_child_nodes(n):
+        if isinstance(ch, (ast.Lambda, ast.FunctionDef, ast.AsyncFunctionDef)):
+            continue
+        yield from _postorder(ch)
+    yield n
+
+
+def _escape_paths(fn: ast.AST, fold: T.Callable[[ast.AST], T.Any]) -> T.List[T.Tuple[bool, str, str, ast.AST]]:
+    """One entry (ok, key, message, node) per returning path and escape kind of a quote function for the MSVC runtime's command line
+    syntax.  On a path that wraps the text in double quotes, backslashes before a `"` must be doubled and the `"` escaped (kind quote)
+    and a terminal run of backslashes doubled (kind terminal; it would otherwise escape the closing quote), before the wrapping;
+    a path may skip a kind only under a condition that excludes its trigger (`"` not in text / text does not end with a backslash /
+    text empty).  Path conditions are read as atoms over the text; an atom the rule cannot read makes it undecided."""
+    ps = [a.arg for a in fn.args.posonlyargs + fn.args.args if a.arg not in ('self', 'cls')]      # type: ignore[attr-defined]
+    if len(ps) != 1:
+        raise Undecided(f'{fn.name}: expected one (text) parameter, found {ps}')      # type: ignore[attr-defined]
+    out: T.List[T.Tuple[bool, str, str, ast.AST]] = []
+    for path in enumerate_paths(fn.body):      # type: ignore[attr-defined]
+        if path.outcome != 'return':
+            continue
+        holders = {ps[0]}
+        derived: T.Dict[str, ast.AST] = {}       # locals computed from the text that do not hold the text itself (tests named before the branch)
+        seq: T.List[T.Tuple[str, ast.AST]] = []
+        absent = {'quote': False, 'terminal': False}
+        present_known: T.List[str] = []
+        for ev in path.events:
+            if ev.kind == 'cond':
+                e = ev.node
+                if isinstance(e, ast.Name) and e.id in derived:
+                    e = derived[e.id]          # a test named as a local before the branch (catalogue C3)
+                names = {x.id for x in ast.walk(e) if isinstance(x, ast.Name)}
+                if names & set(derived):
+                    raise Undecided(f'{fn.name}: path condition `{short(e)}` reads a value computed from the text in a form the rule does not read')      # type: ignore[attr-defined]
+                if not (names & holders):
+                    continue
+                if any(k == 'wrap' for k, _ in seq):
+                    raise Undecided(f'{fn.name}: condition `{short(e)}` tests the text after it was wrapped in quotes')      # type: ignore[attr-defined]
+                val = bool(ev.val)
+                if isinstance(e, ast.Name):
+                    if not val:
+                        absent['quote'] = absent['terminal'] = True
+                    continue
+                if isinstance(e, ast.Compare) and len(e.ops) == 1 and isinstance(e.ops[0], (ast.In, ast.NotIn)) and isinstance(e.left, ast.Constant) \
+                        and isinstance(e.left.value, str) and isinstance(e.comparators[0], ast.Name):
+                    has = val if isinstance(e.ops[0], ast.In) else not val
+                    if not has and e.left.value == '"':
+                        absent['quote'] = True
+                    if not has and e.left.value == '\\':
+                        absent['terminal'] = True
+                    present_known.append(f'{e.left.value!r} {"in" if has else "not in"} text')
+                    continue
+                if isinstance(e, ast.Call) and isinstance(e.func, ast.Attribute) and e.func.attr in ('endswith', 'startswith') and isinstance(e.func.value, ast.Name) \
+                        and len(e.args) == 1 and isinstance(e.args[0], ast.Constant) and isinstance(e.args[0].value, str):
+                    if e.func.attr == 'endswith' and e.args[0].value == '\\' and not val:
+                        absent['terminal'] = True
+                    present_known.append(f'text.{e.func.attr}({e.args[0].value!r}) is {val}')
+                    continue
+                raise Undecided(f'{fn.name}: path condition `{short(e)}` over the text is outside the vocabulary of the rule')      # type: ignore[attr-defined]
+            if ev.kind != 'stmt' or ev.node is None:
+                continue
+            st = ev.node
+            touched = False
+            for n in _postorder(st):
+                if isinstance(n, ast.Call) and isinstance(n.func, ast.Attribute) and n.func.attr in ('sub', 'subn'):
+                    is_re = isinstance(n.func.value, ast.Name) and n.func.value.id == 're'
+                    subj = (n.args[2] if len(n.args) >= 3 else kwarg(n, 'string')) if is_re else (n.args[1] if len(n.args) >= 2 else kwarg(n, 'string'))
+                    if subj is None or not ({x.id for x in ast.walk(subj) if isinstance(x, ast.Name)} & holders):
+                        continue
+                    pat = fold(n.args[0] if is_re and n.args else n.func.value)
+                    pat = pat.pattern if isinstance(pat, Regex) else pat
+                    kind = _escape_kind(pat) if isinstance(pat, str) else None
+                    if kind is None:
+                        raise Undecided(f'{fn.name}: `{short(n, 70)}` rewrites the text with a pattern the rule does not classify')      # type: ignore[attr-defined]
+                    seq.append((kind, n))
+                    touched = True
+                elif isinstance(n, ast.Call) and isinstance(n.func, ast.Attribute) and n.func.attr in STR_TRANSFORMS and n.func.attr not in ('format', 'join') \
+                        and isinstance(n.func.value, ast.Name) and n.func.value.id in holders:
+                    raise Undecided(f'{fn.name}: `{short(n, 70)}` rewrites the text in a form the rule does not read')      # type: ignore[attr-defined]
+                elif _dq_wrapped(n) and ({x.id for x in ast.walk(n) if isinstance(x, ast.Name)} & holders):
+                    seq.append(('wrap', n))
+                    touched = True
+                elif isinstance(n, ast.Call):
+                    operands = list(n.args) + [k.value for k in n.keywords] + ([n.func.value] if isinstance(n.func, ast.Attribute) else [])
+                    nm = n.func.attr if isinstance(n.func, ast.Attribute) else (n.func.id if isinstance(n.func, ast.Name) else '')
+                    if any(isinstance(o, ast.Name) and o.id in holders for o in operands) and nm not in ('endswith', 'startswith', 'len', 'find', 'rfind', 'count', 'isinstance', 'index'):
+                        raise Undecided(f'{fn.name}: `{short(n, 70)}` takes the text; the rule does not know whether it rewrites it')      # type: ignore[attr-defined]
+            if isinstance(st, (ast.Assign, ast.AnnAssign)) and st.value is not None:
+                reads_text = bool({x.id for x in ast.walk(st.value) if isinstance(x, ast.Name)} & (holders | set(derived)))
+                for t in (st.targets if isinstance(st, ast.Assign) else [st.target]):
+                    if not isinstance(t, ast.Name):
+                        continue
+                    if touched or (isinstance(st.value, ast.Name) and st.value.id in holders):
+                        holders.add(t.id)
+                    elif reads_text:
+                        derived[t.id] = st.value
+                        holders.discard(t.id)
+        wraps = [k for k, (kd, _) in enumerate(seq) if kd == 'wrap']
+        where = path.events[-1].node if path.events and path.events[-1].node is not None else fn
+        if len(wraps) > 1:
+            raise Undecided(f'{fn.name}: a path wraps the text in quotes {len(wraps)} times')      # type: ignore[attr-defined]
+        if not wraps:
+            if not any(kd in ('quote', 'terminal') for kd, _ in seq) and not present_known and not absent['quote']:
+                raise Undecided(f'{fn.name}: a returning path neither quotes nor tests the text ({path.describe()[:80]})')      # type: ignore[attr-defined]
+            ok = absent['quote'] or any(kd == 'quote' for kd, _ in seq)
+            out.append((ok, 'unwrapped path: quote escaping', 'a path returns the text without surrounding quotes although it may contain a `"`', where))
+            continue
+        w = wraps[0]
+        facts = ', '.join(present_known) or 'no test of the text'
+        for kind, why in (('quote', 'a `"` inside the text (and the backslashes before it) must be escaped, else it ends the quoted argument'),
+                          ('terminal', 'a terminal run of backslashes must be doubled, else the last one escapes the closing quote and the following arguments are swallowed')):
+            before = [k for k, (kd, _) in enumerate(seq) if kd == kind and k < w]
+            after = [k for k, (kd, _) in enumerate(seq) if kd == kind and k > w]
+            if after and not before:
+                out.append((False, f'{kind} escaping after the wrapping', f'the {kind} escaping runs after the text was wrapped in quotes: it then sees the added quotes, not the argument', seq[after[0]][1]))
+                continue
+            ok = bool(before) or absent[kind]
+            out.append((ok, f'{kind} escaping skipped on a quoting path ({facts})',
+                        f'on the path [{path.describe()[:160]}] the text is wrapped in double quotes without the {kind} escaping, and the path conditions ({facts}) do not exclude its trigger: {why}', where))
+    return out
+
+
+_R3D_DEMO_BAD = """
+def q(arg):
+    if '"' in arg:
+        arg = re.sub(r'(\\\\*)"', lambda m: m.group(0), arg)
+        arg = re.sub(r'(\\\\*)$', lambda m: m.group(0), arg)
+    return f'"{arg}"'
+"""
+_R3D_DEMO_GOOD = """
+def q(arg):
+    if '"' in arg:
+        arg = re.sub(r'(\\\\*)"', lambda m: m.group(0), arg)
+    if arg.endswith('\\\\'):
+        arg = re.sub(r'(\\\\*)$', lambda m: m.group(0), arg)
+    return '"' + arg + '"'
+"""
+
+
+def r3d(ctx: RuleCtx) -> None:
+    lit = lambda e: ast.literal_eval(e)      # noqa: E731
+    bad = _escape_paths(ast.parse(_R3D_DEMO_BAD).body[0], lit)
+    good = _escape_paths(ast.parse(_R3D_DEMO_GOOD).body[0], lit)
+    if [ok for ok, *_ in bad] != [True, True, True, False] or not all(ok for ok, *_ in good):
+        raise Undecided('self-check failed: the escaping-path reader does not match its built-in examples')
+    mod = ctx.repo.module(NINJA)
+    roles = _roles(ctx, mod)
+    names = {roles.win} if roles.win and mod.has_func(roles.win) else set()
+    if not names:
+        raise Undecided('cannot identify the quote function bound to the shell quoter on Windows hosts')
+    n = 0
+    for qn in sorted(names):
+        fn = _nfunc(mod, qn)
+        res = _escape_paths(fn, lambda e: fold_expr(ctx.repo, mod, e))
+        for ok, key, msg, node in res:
+            n += 1
+            ctx.require(ok, f'{qn}: {key.replace("skipped on", "runs or is not needed on")}', mod, qn, key, f'{qn} (command lines on Windows hosts, MSVC-style response files): {msg}', node)
+    ctx.floor('returning paths x escape kinds of the Windows quote function', n, 2)
 
 
 # ---------------------------------------------------------------------------
@@ -2653,7 +2878,7 @@ def r8b(ctx: RuleCtx) -> None:
 def r5d(ctx: RuleCtx) -> None:
     mod = ctx.repo.module(BACKENDS)
     qn = 'Backend.replace_outputs'
-    fn = mod.func(qn)
+    fn = _nfunc(mod, qn)         # normal form: helpers inlined, `while True: m = search(); if m is None: break` / `while (m := search())` read as the primed loop
     loops = []
     for w in walk_no_nested(fn):
         if not isinstance(w, ast.While):
@@ -2851,6 +3076,7 @@ RULES = [
     Rule('C03.R3a', 'rsp style -> quote function: rule and element agree', r3a),
     Rule('C03.R3b', 'raw_names single table; strToCommandArg classification', r3b),
     Rule('C03.R3c', 'gcc_rsp_quote doubles backslashes; quote_func binding', r3c),
+    Rule('C03.R3d', 'Windows/MSVC quote function: quote and terminal-backslash escaping on every quoting path', r3d),
     Rule('C03.R4a', 'meson_exe: argv list to Popen, no shell', r4a),
     Rule('C03.R4b', 'mtest: argv list to create_subprocess_exec, no shell, argv order', r4b),
     Rule('C03.R4c', 'test serialisation stores string arguments unchanged, in order', r4c),
